@@ -43,7 +43,9 @@ func init() {
 		var mu sync.Mutex
 		var total explore.SnapStats
 		runs := []WorldRun{
-			{World: "pay", Quick: b(1, 1, 2), Thorough: b(2, 2, 2), MenuFilter: noReplay, OneEnv: true},
+			// both block-time environments (5 s and 8 s): with slow blocks the gas limit of the next
+			// blocks depends on the block-time record, which has to travel with the snapshot
+			{World: "pay", Quick: b(1, 1, 2), Thorough: b(2, 2, 2), MenuFilter: noReplay},
 			{World: "coin", Quick: b(1, 1, 2), Thorough: b(2, 2, 2), OneEnv: true},
 			{World: "pool", Quick: b(1, 1, 1), Thorough: b(2, 2, 2), OneEnv: true},
 			{World: "book", Quick: b(1, 1, 1), Thorough: b(2, 2, 2), OneEnv: true},
